@@ -635,11 +635,13 @@ class VerificationElement(Message):
     }
 
     def verify(self, **kwargs):
+        super(VerificationElement, self).verify(**kwargs)
         if "evidence" in self and self["evidence"]:
             for evid in self["evidence"]:
                 evid.verify(**kwargs)
         if "assurance_process" in self and self["assurance_process"]:
             self["assurance_process"].verify(**kwargs)
+        return True
 
 
 def verification_element_deser(val, sformat="urlencoded"):
